@@ -287,6 +287,25 @@ def uncond_before(root, a, b):
     return True, ""
 
 
+def every_iteration(scope, node):
+    """`node` is evaluated on every normal pass through `scope` (a loop body / closure body / block): it hangs under no
+    conditional inside scope and no break/continue/return/`?` that belongs to scope precedes it.  Returns (ok, reason)."""
+    conds = conditional_ancestors(scope, node)
+    if conds is None:
+        return False, "not inside the scope"
+    if conds:
+        return False, "only under a conditional (%s at line %s)" % (conds[0].get("k"), conds[0].get("sp", ["?"])[0])
+    for x in walk(scope):
+        if x.get("k") in ("Break", "Continue", "Ret") and x.get("sp") and sp_before(x, node):
+            # exits of nested loops/closures do not leave this scope
+            inner = [a for a, _ in (path_to(scope, x) or []) if isinstance(a, dict) and a.get("k") in ("Loop", "Closure") and a is not scope]
+            if x.get("k") == "Ret":
+                inner = [a for a in inner if a.get("k") == "Closure"]
+            if not inner:
+                return False, "after an early %s at line %s" % (x["k"].lower(), x["sp"][0])
+    return True, ""
+
+
 def pat_variants(p):
     """Set of (adt, variant) a pattern matches at its top level (through Or/Ref/Deref/Box/Binding@),
     plus flag whether it contains a catch-all at that level."""
